@@ -1319,11 +1319,10 @@ Proof.
   intros ffs. rewrite asm_NVol. cbn [fst snd v_attrs]. rewrite Epol.
   change (set_polarity 255 255) with (Some 255). cbv beta iota. rewrite Ek. cbn [bind].
   unfold vol_asm. unfold asm_vol.
-  destruct kids' as [|k0 kr].
-  { cbn [bind]. eexists; eexists. split; [reflexivity|exact Epol]. }
-  cbv beta iota. cbn [v_length v_blocks v_dataoff v_hdrlen v_resizable v_guid].
-  set (kids' := k0 :: kr) in *.
+  cbn [v_length v_blocks v_dataoff v_hdrlen v_resizable v_guid].
+  rewrite Sg. cbn [negb]. rewrite andb_false_r. cbv beta iota.
   rewrite Lv. replace (len <? len) with false by lia. change (72 <? 72) with false. cbv iota.
+  replace (len <? 72) with false by lia.
   rewrite slice_ok by lia. change (72 - 0) with 72. cbn [of_opt bind].
   assert (Esl : sub 0 72 (hdr ++ tail) = hdr) by (apply sub_app_here; exact Lh).
   rewrite Esl.
